@@ -56,7 +56,7 @@ TRIGGER = ["filter", "filter", "filter", "slice_head", "mutate_window", "summari
 
 
 def _directed(draw, deep):
-    """state (window column / slice / filter / grouped window / summarize / join) -> optionally hide the new columns
+    """optionally alias() -> state (window column / slice / filter / grouped window / summarize / join) -> optionally hide the new columns
     (select, drop, overwrite, rename) -> optionally alias() -> a verb that may need a subquery -> the hidden columns are
     copied into visible ones, so that whatever the SELECT merged or dropped shows up in the result."""
     cfg = pipegen.PCfg(weights=GENERAL, max_len=3, min_len=0, expr=Cfg(max_depth=2), sub_len=1, win_direct=8, expose=0)
@@ -76,6 +76,10 @@ def _directed(draw, deep):
     if draw(st.integers(0, 3)) == 0:
         var = g.extend(var, 1)
     new_cols = []
+    if draw(st.integers(0, 3)) == 0:
+        # an alias() *below* the state: it must not count as the subquery boundary for what follows the state
+        step(g.v_alias)
+        g.classes.add("directed:alias_below_state")
     for what in draw(st.lists(st.sampled_from(STATE), min_size=1, max_size=2)):
         before = {c for _, c in g.t(var).visible}
         if what == "window":
